@@ -756,7 +756,17 @@ def runtime_cfg(scn, facts, lookups="all", shared_names=False):
             # one scenario in four comes after ANOTHER App of the same worker process, over instances of its own of the same
             # types, in which an application-defined post-processor rewrote the tag arguments (qualifier, required, values in
             # place) of every injection point: a start is independent of earlier starts, the scenario must look as always
-            "foreign": foreign_first(scn, True)}
+            "foreign": foreign_first(scn, True),
+            # one scenario in six has ANOTHER App started between its start and its lookups (which create its lazy
+            # components), over fresh instances of every other component: two Apps of one process share nothing
+            "later": later_app(scn, True)}
+
+
+def later_app(scn, keep=False):
+    f = bool(scn.get("later", scn["id"] % 6 == 2))
+    if keep:
+        scn["later"] = f
+    return f
 
 
 def foreign_first(scn, keep=False):
@@ -1135,7 +1145,9 @@ def scenario_stats(scns, by_id):
     return {"outcomes": oc, "components_per_scenario": sizes, "point_kinds": kinds,
             "started_twice_on_the_same_instances": sum(1 for s in scns if s["id"] in by_id and s.get("twice", s["id"] % 5 == 4)),
             "preceded_by_another_app_whose_processor_rewrote_tag_arguments":
-                sum(1 for s in scns if s["id"] in by_id and foreign_first(s))}
+                sum(1 for s in scns if s["id"] in by_id and foreign_first(s)),
+            "another_app_started_between_the_start_and_the_lookups":
+                sum(1 for s in scns if s["id"] in by_id and later_app(s))}
 
 
 def shape_hash(s):
